@@ -111,6 +111,25 @@ def homomorphism(ctx, rng, conn, case):
             ctx.violation(f'c12.homomorphism.{name}', f'{name} {sel}: f(sum(position)) = {a} ; sum(f(position)) = {b} ; harness sum of per-row values = {exp}',
                           dict(case, selection=sel))
             return
+    # sums over INVENTORY values: the per-group sums of a sub-query summed again, by several aggregates side by side
+    g2 = rng.choice(['account', 'currency', 'flag'])
+    parts = fetch(ctx, conn, f'SELECT {g2} AS g, sum(position) AS part {sel} GROUP BY {g2}', case)
+    second = fetch(ctx, conn, f'SELECT sum(part) AS a, units(sum(part)) AS u, cost(sum(part)) AS c, sum(units(part)) AS su, count(part) AS n, sum(part) AS again '
+                              f'FROM (SELECT {g2} AS g, sum(position) AS part {sel} GROUP BY {g2})', case)
+    having = fetch(ctx, conn, f'SELECT sum(part) AS a FROM (SELECT {g2} AS g, year AS y, sum(position) AS part {sel} GROUP BY {g2}, year) GROUP BY y HAVING NOT empty(sum(part))', case)
+    if parts is None or second is None or having is None:
+        return
+    ctx.count('obs.inventory_sum_cases')
+    if second:
+        from beancount.core import convert
+        a, u, c, su, n_, again = second[0]
+        if a != whole or again != whole or u != whole.reduce(convert.get_units) or c != whole.reduce(convert.get_cost) or su != u or n_ != len(parts):
+            ctx.violation('c12.sum_of_inventories', f'sum over the per-{g2} inventories {sel}: sum(part) = {a} (again {again}), units {u}, cost {c}; whole selection sums to {whole}',
+                          dict(case, selection=sel, grouping=g2))
+            return
+    if inv_sum(r[0] for r in having) != whole and rows:
+        ctx.violation('c12.sum_of_inventories', f'per-year sums of per-{g2} inventories {sel} do not add up to the whole', dict(case, selection=sel, grouping=g2))
+        return
     # partition additivity
     g = rng.choice(GROUPINGS)
     grouped = fetch(ctx, conn, f'SELECT {g}, sum(position) AS s, count(*) AS n {sel} GROUP BY {g}', case)
@@ -250,7 +269,7 @@ def replay(ctx, case):
 def finalize(merged):
     c = merged['counters']
     reasons = []
-    for k in ('obs.homomorphism_cases', 'obs.function_relations', 'obs.partition_checks', 'obs.balance_cases', 'obs.balance_monitor_events',
+    for k in ('obs.inventory_sum_cases', 'obs.homomorphism_cases', 'obs.function_relations', 'obs.partition_checks', 'obs.balance_cases', 'obs.balance_monitor_events',
               'obs.balance_with_subquery_between', 'obs.balance_references.2', 'obs.balance_references.3', 'obs.balance_in_condition_cases'):
         if c.get(k, 0) == 0:
             reasons.append(f'{k} == 0')
